@@ -315,7 +315,7 @@ func (fa *FuncAnalysis) guardsOfBlock(b *ssa.BasicBlock, depth int) []Guard {
 		out = append(out, fa.phiCorrelated(iff, e0, depth)...)
 		// a predicate helper of the module in the condition (`if k.isChargeable(asset, t)`): what its outcome implies
 		// holds as well (an extracted `a && b && c` gives a, b, c on the true edge)
-		if curEngine != nil && helperDepth < 2 && (t.Op == "call" || t.Op == "ncall") {
+		if curEngine != nil && helperDepth < 2 && (t.Op == "call" || t.Op == "ncall") && !(onlyNewHelperGuards && baselineFuncs[t.Name]) {
 			helperDepth++
 			for _, hg := range curEngine.helperGuards(g) {
 				hg.If = iff
@@ -326,6 +326,10 @@ func (fa *FuncAnalysis) guardsOfBlock(b *ssa.BasicBlock, depth int) []Guard {
 	}
 	return out
 }
+
+// onlyNewHelperGuards: while set, the outcome of a predicate that the reviewed tree already has is a fact by itself and is
+// not expanded into the facts of its body (X.guards: a reviewed predicate is judged where it is defined).
+var onlyNewHelperGuards bool
 
 // edgeDominates: every path from function entry to b uses the CFG edge d->s.
 func edgeDominates(d, s, b *ssa.BasicBlock) bool {
